@@ -98,6 +98,53 @@ def run(ctx) -> None:
             )
     res.sample({"argv": ["--explain", "FURB123"], "expected_head": render(by_key[("FURB", 123)][0])[:80]} if ("FURB", 123) in by_key else {})
 
+    # ---- every code that can appear in the output can be explained: also the codes of plugin checks, whether the plugin picks
+    # its own prefix or keeps the inherited default one, loaded by --load or by `load = [...]` in the config file
+    PLUG = (
+        "from dataclasses import dataclass\nfrom mypy.nodes import IntExpr\nfrom refurb.error import Error\n\n\n@dataclass\nclass ErrorInfo(Error):\n"
+        "    \"\"\"\n    Doc of {tag}: do not write the number {n}.\n    \"\"\"\n\n{prefix}    code = {code}\n    name = \"{name}\"\n    categories = (\"plug\",)\n"
+        "    msg: str = \"{tag} fired\"\n\n\ndef check(node: IntExpr, errors: list[Error]) -> None:\n    if node.value == {n}:\n        errors.append(ErrorInfo.from_node(node))\n"
+    )
+    plugs = {
+        "own_prefix": {"prefix": '    prefix = "ACME"\n', "code": 101, "n": 41, "shown": "ACME101", "name": "acme-check"},
+        "default_prefix": {"prefix": "", "code": 900, "n": 42, "shown": "FURB900", "name": "inherits-prefix"},
+        "near_prefix": {"prefix": '    prefix = "FUR"\n', "code": 123, "n": 43, "shown": "FUR123", "name": "near-prefix"},
+    }
+    with core.scratch("rv-c17-plug-") as d:
+        (d / "plugs").mkdir()
+        (d / "plugs" / "__init__.py").write_text("")
+        for mod, p in plugs.items():
+            (d / "plugs" / f"{mod}.py").write_text(PLUG.format(tag=mod, **{k: v for k, v in p.items() if k != "shown"}))
+        (d / "f.py").write_text("a = 41\nb = 42\nc = 43\n")
+        (d / "pyproject.toml").write_text("")
+        (d / "cfg.toml").write_text('[tool.refurb]\nload = ["plugs"]\n')
+        rc0, out0, err0 = core.refurb_cli(["f.py", "--load", "plugs", "--quiet"], cwd=d)
+        shown = sorted({f"{x['prefix']}{x['code']}" for x in core.parse_plain(out0)[0]})
+        res.case(("explain-plugin", "lint"))
+        if shown != sorted(p["shown"] for p in plugs.values()):
+            res.notes.append(f"plugin probe: diagnostics shown {shown}, expected {sorted(p['shown'] for p in plugs.values())}: {err0[-200:]}")
+        jobs = [(mod, how) for mod in plugs for how in ("--load", "config")]
+
+        def ask_plugin(job):
+            mod, how = job
+            argv = ["--explain", plugs[mod]["shown"]] + (["--load", "plugs"] if how == "--load" else ["--config-file", "cfg.toml"])
+            return job, argv, core.refurb_cli(argv, cwd=d)
+
+        with ThreadPoolExecutor(6) as ex:
+            pans = list(ex.map(ask_plugin, jobs))
+    for (mod, how), argv, (rc, out, err) in pans:
+        res.case(("explain-plugin", mod, how))
+        p = plugs[mod]
+        ok = rc == 0 and not err and out.startswith(f"{p['shown']}: {p['name']} [plug]") and f"Doc of {mod}" in out
+        if not ok:
+            res.violate(
+                f"`refurb {' '.join(argv)}` does not print the explanation of the plugin check that reports {p['shown']}",
+                {"kind": "explain-plugin", "plugin": mod, "via": how},
+                {"files": {"plugs/__init__.py": "", f"plugs/{mod}.py": PLUG.format(tag=mod, **{k: v for k, v in p.items() if k != 'shown'}), "f.py": "a = 41\nb = 42\nc = 43\n", "cfg.toml": '[tool.refurb]\nload = ["plugs"]\n', "pyproject.toml": ""},
+                 "argv": argv, "stdout": out[:400], "stderr": err[-400:], "rc": rc, "required": f"{p['shown']}: {p['name']} [plug] ... Doc of {mod}",
+                 "how": "write `files` into an empty directory; `python -m refurb f.py --load plugs --quiet` shows the code; then run argv"},
+            )
+
     # ---- model vs implementation: explain
     if ctx.driver.available():
         from refurb.error import ErrorCode
